@@ -114,6 +114,8 @@ pub struct World {
     pub prop: String,
     /// running hash of everything observed through the API (C19 compares it across builds)
     pub obs: u64,
+    /// device calls issued by each executed step (C09 enumerates fault positions 1..=n)
+    pub step_calls: Vec<u64>,
 }
 
 pub enum SessionEnd {
